@@ -24,6 +24,7 @@ type c15dir struct {
 	text  string // directive text, e.g. "%+8w" or "%[2]w"
 	isW   bool
 	index int // explicit 1-based operand index, 0 = sequential
+	stars int // '*' operands taken sequentially before the operand (no explicit operand index)
 }
 
 type c15case struct {
@@ -40,6 +41,8 @@ var c15wOperands = []*D{
 	{K: "PSafeFmtErr", Sub: []*D{dS("sSafeString", "sf:"), dS("sUnsafeString", "u")}},
 	// an error whose SafeFormat method itself prints with %w through its printer: a bad verb there, whatever the entry point
 	{K: "PSafeFmtErr", Sub: []*D{dS("sSafeString", "sf:"), {K: "sPrintf", S: "in %w;", Sub: []*D{dS("Err", "inner")}}}},
+	// an error whose SafeFormat method prints the verb it was given (a correctly used %w arrives as 'v')
+	{K: "PSafeFmtErr", Sub: []*D{dS("sSafeString", "verb="), {K: "sVerb"}, dS("sUnsafeString", "u")}},
 	{K: "nil"}, dN("int", 42), dS("string", "notanerror"), dS("Stringer", "str"),
 	{K: "errs", Sub: []*D{dS("Err", "in-slice")}},
 	dSub("Safe", dS("Err", "safe-err")), dSub("Unsafe", dS("Err", "unsafe-err")), dSub("Safe", dN("int", 7)), dSub("Unsafe", dSub("Safe", dS("PErr", "nested"))),
@@ -112,6 +115,8 @@ func c15check(w *Worker, format string, dirs []c15dir, operands []*D, idx int64)
 				continue
 			}
 			argNum = d.index - 1
+		} else {
+			argNum += d.stars
 		}
 		if d.isW {
 			nW++
@@ -321,7 +326,7 @@ func runC15(c *Ctx) {
 		dirs []c15dir
 	}
 	var tmpls []tmpl
-	slots := []c15dir{{"%w", true, 0}, {"%v", false, 0}, {"%d", false, 0}, {"%%", false, 0}}
+	slots := []c15dir{{"%w", true, 0, 0}, {"%v", false, 0, 0}, {"%d", false, 0, 0}, {"%%", false, 0, 0}}
 	for n := 1; n <= 3; n++ {
 		total := 1
 		for i := 0; i < n; i++ {
@@ -397,16 +402,32 @@ func runC15(c *Ctx) {
 	// flags/width/indexes on a single %w
 	for _, wf := range c15wForms {
 		for _, cand := range c15wOperands {
-			jobs = append(jobs, job{"x " + wf + " y", []c15dir{{wf, true, 0}}, []*D{cand}})
-			jobs = append(jobs, job{"x %d " + wf + " y", []c15dir{{"%d", false, 0}, {wf, true, 0}}, []*D{dN("int", 3), cand}})
+			jobs = append(jobs, job{"x " + wf + " y", []c15dir{{wf, true, 0, 0}}, []*D{cand}})
+			jobs = append(jobs, job{"x %d " + wf + " y", []c15dir{{"%d", false, 0, 0}, {wf, true, 0, 0}}, []*D{dN("int", 3), cand}})
 		}
+	}
+	// star widths and precisions, alone and combined with explicit indexes (an index may follow the star)
+	for _, cand := range c15wOperands {
+		w8 := dN("int", 8)
+		jobs = append(jobs,
+			job{"x %*w y", []c15dir{{"%*w", true, 0, 1}}, []*D{w8, cand}},
+			job{"x %-*w y", []c15dir{{"%-*w", true, 0, 1}}, []*D{w8, cand}},
+			job{"x %.*w y", []c15dir{{"%.*w", true, 0, 1}}, []*D{dN("int", 3), cand}},
+			job{"x %*.*w y", []c15dir{{"%*.*w", true, 0, 2}}, []*D{w8, dN("int", 3), cand}},
+			job{"x %[1]*[2]w y", []c15dir{{"%[1]*[2]w", true, 2, 0}}, []*D{w8, cand}},
+			job{"x %[2]*[1]w y", []c15dir{{"%[2]*[1]w", true, 1, 0}}, []*D{cand, w8}},
+			job{"x %*[2]w y", []c15dir{{"%*[2]w", true, 2, 0}}, []*D{w8, cand}},
+			job{"x %.*[2]w y", []c15dir{{"%.*[2]w", true, 2, 0}}, []*D{dN("int", 3), cand}},
+			job{"x %[1]*w y", []c15dir{{"%[1]*w", true, 2, 0}}, []*D{w8, cand}},
+			job{"%d x %[2]*[3]w y", []c15dir{{"%d", false, 0, 0}, {"%[2]*[3]w", true, 3, 0}}, []*D{dN("int", 1), w8, cand}},
+		)
 	}
 	for _, cand := range c15wOperands {
 		jobs = append(jobs,
-			job{"%[2]w then %[1]d", []c15dir{{"%[2]w", true, 2}, {"%[1]d", false, 1}}, []*D{dN("int", 3), cand}},
-			job{"%[1]w and again %[1]w", []c15dir{{"%[1]w", true, 1}, {"%[1]w", true, 1}}, []*D{cand}},
-			job{"%[3]w", []c15dir{{"%[3]w", true, 3}}, []*D{cand}},
-			job{"%[1]v %[1]w", []c15dir{{"%[1]v", false, 1}, {"%[1]w", true, 1}}, []*D{cand}},
+			job{"%[2]w then %[1]d", []c15dir{{"%[2]w", true, 2, 0}, {"%[1]d", false, 1, 0}}, []*D{dN("int", 3), cand}},
+			job{"%[1]w and again %[1]w", []c15dir{{"%[1]w", true, 1, 0}, {"%[1]w", true, 1, 0}}, []*D{cand}},
+			job{"%[3]w", []c15dir{{"%[3]w", true, 3, 0}}, []*D{cand}},
+			job{"%[1]v %[1]w", []c15dir{{"%[1]v", false, 1, 0}, {"%[1]w", true, 1, 0}}, []*D{cand}},
 		)
 	}
 	c.AddCount("enumerated_cases", int64(len(jobs)))
@@ -427,7 +448,7 @@ func runC15(c *Ctx) {
 			f.WriteString(randLit(r, genOpts{}))
 			if r.Chance(2, 5) {
 				wf := c15wForms[r.Intn(len(c15wForms))]
-				dirs = append(dirs, c15dir{wf, true, 0})
+				dirs = append(dirs, c15dir{wf, true, 0, 0})
 				f.WriteString(wf)
 				if r.Chance(3, 4) {
 					ops = append(ops, c15wOperands[r.Intn(len(c15wOperands))])
@@ -436,7 +457,7 @@ func runC15(c *Ctx) {
 				}
 			} else {
 				of := c15others[r.Intn(len(c15others))]
-				dirs = append(dirs, c15dir{of, false, 0})
+				dirs = append(dirs, c15dir{of, false, 0, 0})
 				f.WriteString(of)
 				if of != "%%" {
 					ops = append(ops, randD(r, 2, o))
@@ -454,6 +475,6 @@ func runC15(c *Ctx) {
 		c15check(w, format, dirs, ops, i)
 		w.Count("random_cases", 1)
 	})
-	c.res.Bound = "all sequences of <= 3 directives over {%w, %v, %d, %%} x 19 operand kinds at each %w position (one varied at a time), 7 flag/width forms and 4 index forms of %w"
+	c.res.Bound = "all sequences of <= 3 directives over {%w, %v, %d, %%} x 20 operand kinds at each %w position (one varied at a time), 7 flag/width forms, 4 index forms and 10 star forms of %w"
 	c.res.Assumptions = []string{"go1.23.5 fmt.Errorf/errors.Unwrap are the reference for formats with at most one %w", "a second %w that never reaches an operand (MISSING/BADINDEX) is ambiguous in the statement: only the text is asserted there"}
 }
